@@ -877,6 +877,40 @@ func ruleE3(c *Ctx) []Ob {
 			}
 		}
 	}
+	// (2a) a function that links descriptors into shared type nodes changes nothing else in them: rollback knows how to undo
+	// the Sd links it finds in the journal, and nothing more (a "visited" mark that survives a failed build makes the next
+	// build skip the members whose links were taken back)
+	for _, fn := range c.ModuleFuncs(pkgReflect) {
+		if isInitFn(fn) {
+			continue
+		}
+		links := false
+		for _, b := range fn.Blocks {
+			for _, ins := range b.Instrs {
+				if x, ok := ins.(*ssa.Store); ok {
+					if recv, typ, f, ok := fieldOf(x.Addr); ok && typ == "tType" && f == "Sd" && !localAlloc(recv) && !isNilConst(x.Val) {
+						links = true
+					}
+				}
+			}
+		}
+		if !links {
+			continue
+		}
+		for _, b := range fn.Blocks {
+			for _, ins := range b.Instrs {
+				x, ok := ins.(*ssa.Store)
+				if !ok {
+					continue
+				}
+				recv, typ, f, ok := fieldOf(x.Addr)
+				if !ok || typ != "tType" && typ != "structDesc" && typ != "tField" || f == "Sd" || localAlloc(recv) {
+					continue
+				}
+				s.bad(shortFn(fn)+":journal-other", c.InstrPos(x), "a shared descriptor node is modified ("+typ+"."+f+") by the function that links descriptors during a build, and the build journal records only Sd links and cache inserts: after a failed build rollback takes the links back but this change stays, so a later build of a valid type is not completed")
+			}
+		}
+	}
 	// (2b) the journals are only ever appended to (at the write sites) or emptied (by the finishing calls): truncating them
 	// anywhere else makes a later rollback forget entries of the same build
 	for _, fn := range c.ModuleFuncs(pkgReflect) {
